@@ -5761,3 +5761,714 @@ Proof.
   - rewrite <- (H1 (L ++ R)), (t_setk_id _ U _ HkU). reflexivity.
   - unfold t2. rewrite H1, frows_app, frows_cons. rewrite <- !app_assoc. reflexivity.
 Qed.
+
+(* ============================================================================================== *)
+(* Part 23.  The string layer in general: `sep` argument and tree separator of any positive length,    *)
+(* possibly different, optional leading separator on the from- and the to-path.                     *)
+
+Lemma m_replace_go_name old new x : forall rest fuel,
+  old <> [] -> sfree old x -> length x <= fuel ->
+  replace_go fuel old new (x ++ rest) = x ++ replace_go (fuel - length x) old new rest.
+Proof.
+  induction x as [|c x IH]; intros rest fuel Ho Hf Hl.
+  - cbn [app length]. rewrite Nat.sub_0_r. reflexivity.
+  - destruct fuel as [|f]; [cbn in Hl; lia|]. apply sfree_cons in Hf as [Hc Hx].
+    cbn [app replace_go length Nat.sub]. rewrite (startswith_hd_false c (x ++ rest) old Ho Hc).
+    f_equal. apply IH; [exact Ho|exact Hx|cbn in Hl; lia].
+Qed.
+
+Lemma m_replace_go_sep old new rest fuel :
+  old <> [] -> replace_go (S fuel) old new (old ++ rest) = new ++ replace_go fuel old new rest.
+Proof.
+  intros Ho. destruct old as [|a o]; [contradiction|]. cbn [app replace_go].
+  change (a :: o ++ rest) with ((a :: o) ++ rest). rewrite startswith_app, skipn_app_exact. reflexivity.
+Qed.
+
+Lemma m_replace_go_join old new : forall (L : list str) fuel,
+  old <> [] -> Forall (sfree old) L -> length (join old L) <= fuel ->
+  replace_go fuel old new (join old L) = join new L.
+Proof.
+  induction L as [|x L IH]; intros fuel Ho HF Hl; [destruct fuel; reflexivity|].
+  inversion HF as [|? ? Hx HL]; subst. destruct L as [|y L].
+  - cbn [join]. rewrite <- (app_nil_r x) at 1. rewrite (m_replace_go_name old new x [] fuel Ho Hx Hl).
+    destruct (fuel - length x); cbn; rewrite app_nil_r; reflexivity.
+  - rewrite !join_cons2. rewrite join_cons2, !app_length in Hl.
+    rewrite (m_replace_go_name old new x _ fuel Ho Hx) by lia.
+    assert (Hlen : 1 <= length old) by (destruct old; [contradiction|cbn; lia]).
+    destruct (fuel - length x) as [|f] eqn:Ef; [lia|].
+    rewrite (m_replace_go_sep old new _ f Ho). f_equal. f_equal. apply IH; [exact Ho|exact HL|lia].
+Qed.
+
+Lemma m_replace_join a o new (L : list str) :
+  Forall (sfree (a :: o)) L -> py_replace (join (a :: o) L) (a :: o) new = join new L.
+Proof. intros HF. unfold py_replace, replace. apply m_replace_go_join; [discriminate|exact HF|lia]. Qed.
+
+(* a path as users write it: optional leading separator, names joined by the separator *)
+Definition rpath_str (sp : str) (lead : bool) (L : list str) : str := (if lead then sp else []) ++ join sp L.
+Definition lead_comps (lead : bool) (L : list str) : list str := (if lead then [[]] else []) ++ L.
+
+Lemma rpath_str_join sp lead L : L <> [] -> rpath_str sp lead L = join sp (lead_comps lead L).
+Proof.
+  intros HL. unfold rpath_str, lead_comps. destruct lead; [|reflexivity]. cbn [app].
+  destruct L; [congruence|]. rewrite join_cons2. reflexivity.
+Qed.
+
+Lemma sfree_nil sp : sfree sp [].
+Proof. intros ch _ []. Qed.
+
+Lemma lead_comps_sfree sp lead L : Forall (sgood sp) L -> Forall (sfree sp) (lead_comps lead L).
+Proof.
+  intros H. unfold lead_comps. apply Forall_app. split; [destruct lead; repeat constructor; apply sfree_nil|].
+  apply sgood_sfree_all. exact H.
+Qed.
+
+Section StringLayer.
+  Variables (a1 : N) (o1 : str) (a2 : N) (o2 : str).
+  Let s1 := a1 :: o1.     (* the `sep` argument *)
+  Let s2 := a2 :: o2.     (* tree.sep *)
+
+  Lemma sl_norm lead L : L <> [] -> Forall (sgood s1) L ->
+    py_replace (rstrip (rpath_str s1 lead L) s1) s1 s2 = rpath_str s2 lead L.
+  Proof.
+    intros HL HF. unfold rpath_str at 1. rewrite (rstrip_join_multi s1 L _ HL HF).
+    fold (rpath_str s1 lead L). rewrite !rpath_str_join by exact HL.
+    apply m_replace_join. apply lead_comps_sfree. exact HF.
+  Qed.
+
+  Lemma sl_split lead L : L <> [] -> Forall (sgood s2) L -> split (rpath_str s2 lead L) s2 = lead_comps lead L.
+  Proof.
+    intros HL HF. rewrite rpath_str_join by exact HL. apply split_join_multi.
+    - unfold lead_comps. destruct lead; [discriminate|exact HL].
+    - apply lead_comps_sfree. exact HF.
+  Qed.
+
+  Lemma sl_lstrip lead L : L <> [] -> Forall (sgood s2) L -> lstrip (rpath_str s2 lead L) s2 = join s2 L.
+  Proof.
+    intros HL HF. unfold rpath_str. destruct lead; [apply lstrip_sep_join; assumption|apply lstrip_join_m; assumption].
+  Qed.
+
+  Lemma sl_rstrip lead L : L <> [] -> Forall (sgood s2) L -> rstrip (rpath_str s2 lead L) s2 = rpath_str s2 lead L.
+  Proof. intros HL HF. unfold rpath_str. apply rstrip_join_multi; assumption. Qed.
+
+  Lemma sl_nonempty lead L : L <> [] -> Forall (sgood s2) L -> rpath_str s2 lead L <> [].
+  Proof.
+    intros HL HF. unfold rpath_str. pose proof (join_nonempty_m s2 L HL HF) as H.
+    destruct lead; [discriminate|exact H].
+  Qed.
+
+  Lemma last_lead_comps lead (L : list str) : L <> [] -> last (lead_comps lead L) [] = last L [].
+  Proof.
+    intros HL. unfold lead_comps. destruct lead; [|reflexivity]. cbn [app]. destruct L; [congruence|reflexivity].
+  Qed.
+
+  (* find_full_path on the normalised string: the root check, then the walk *)
+  Lemma sl_find_full_path (t : tree) lead L : L <> [] -> Forall (sgood s2) L ->
+    find_full_path [t] 0 s2 (rpath_str s2 lead L)
+    = if negb (str_eqb (hd [] L) (tname t)) then Raise ValueError else walk_names (tkids t) [0] (tl L).
+  Proof.
+    intros HL HF. unfold find_full_path. cbn [nth_error].
+    rewrite sl_rstrip, sl_lstrip by assumption. pose proof (split_join_m a2 o2 L HL HF) as E. fold s2 in E. rewrite E. reflexivity.
+  Qed.
+
+  (* the parent path handed to add_path_to_tree when the destination does not exist *)
+  Lemma sl_add_path_comps (t : tree) lead TX : 2 <= length TX -> Forall (sgood s2) TX ->
+    add_path_comps [t] 0 s2 (join s2 (removelast (split (rpath_str s2 lead TX) s2)))
+    = if negb (str_eqb (hd [] TX) (tname t)) then Raise TreeError else Ret (tl (removelast TX)).
+  Proof.
+    intros Hlen HF. assert (HL : TX <> []) by (destruct TX; [cbn in Hlen; lia|discriminate]).
+    rewrite sl_split by assumption.
+    assert (HQ : removelast TX <> []) by (destruct TX as [|x [|y TX']]; cbn in *; [lia|lia|discriminate]).
+    assert (HFQ : Forall (sgood s2) (removelast TX)).
+    { rewrite Forall_forall in *. intros w Hw. apply HF. destruct TX as [|x TX'] using rev_ind; [congruence|].
+      rewrite removelast_last in Hw. apply in_or_app. left. exact Hw. }
+    assert (Hrl : removelast (lead_comps lead TX) = lead_comps lead (removelast TX)).
+    { unfold lead_comps. destruct lead; [|reflexivity]. cbn [app]. destruct TX; [congruence|reflexivity]. }
+    rewrite Hrl, <- rpath_str_join by exact HQ.
+    rewrite add_path_comps_ne by (apply sl_nonempty; assumption). cbn [nth_error]. cbv zeta.
+    rewrite sl_lstrip by assumption. pose proof (rstrip_join_multi s2 (removelast TX) [] HQ HFQ) as Er. cbn [app] in Er. rewrite Er.
+    pose proof (split_join_m a2 o2 _ HQ HFQ) as E. fold s2 in E. rewrite E.
+    destruct TX as [|x [|y TX']]; [congruence|cbn in Hlen; lia|]. reflexivity.
+  Qed.
+End StringLayer.
+
+Section WholeCall.
+  Variables (a1 : N) (o1 : str) (a2 : N) (o2 : str).
+  Let s1 := a1 :: o1.
+  Let s2 := a2 :: o2.
+  Variables (cp : bool) (fl : mflags) (t : tree) (lf lt : bool) (FX TX : list str).
+  Let op := if cp then OpCopy else OpShift.
+  Let i := MI op fl s1 t s2 (T None [] [] []) s2 [rpath_str s1 lf FX] [Some (rpath_str s1 lt TX)].
+  Let c := CFG cp false s1 s2 s2 fl.
+  Hypothesis HFX : FX <> [].
+  Hypothesis HTX : TX <> [].
+  Hypothesis HgF1 : Forall (sgood s1) FX.
+  Hypothesis HgF2 : Forall (sgood s2) FX.
+  Hypothesis HgT1 : Forall (sgood s1) TX.
+  Hypothesis HgT2 : Forall (sgood s2) TX.
+
+  Definition sl_checks : bool :=
+    str_eqb (last FX []) (last TX []) && (negb (f_full fl) || str_eqb (hd [] FX) (tname t)) && str_eqb (hd [] TX) (tname t).
+
+  Lemma sl_cfg : cfg_of i = c.
+  Proof. unfold i, op, c, cfg_of. destruct cp; reflexivity. Qed.
+
+  Lemma sl_norm_from : norm_from c (rpath_str s1 lf FX) = rpath_str s2 lf FX.
+  Proof. unfold norm_from, c. cbn [c_sep c_ssep]. apply (sl_norm a1 o1 a2 o2); assumption. Qed.
+
+  Lemma sl_norm_to : norm_to c (Some (rpath_str s1 lt TX)) = Some (rpath_str s2 lt TX).
+  Proof.
+    unfold norm_to. rewrite truthy_some by (apply (sl_nonempty a1 o1); assumption).
+    unfold c. cbn [c_sep c_dsep]. f_equal. apply (sl_norm a1 o1 a2 o2); assumption.
+  Qed.
+
+  Lemma sl_validate :
+    cs_validate c [t] [rpath_str s1 lf FX] [Some (rpath_str s1 lt TX)]
+    = if f_mc fl && f_ml fl then Some ValueError else if sl_checks then None else Some ValueError.
+  Proof.
+    unfold cs_validate. change (c_fl c) with fl. destruct (f_mc fl && f_ml fl); [reflexivity|].
+    cbn [length Nat.eqb negb]. change (c_copy c) with cp. cbn [existsb].
+    rewrite truthy_some by (apply (sl_nonempty a1 o1); assumption). rewrite orb_false_r, andb_false_r.
+    cbn [map]. rewrite sl_norm_from, sl_norm_to. cbn [last_names_ok].
+    rewrite truthy_some by (apply (sl_nonempty a2 o2); assumption).
+    change (c_ssep c) with s2. change (c_dsep c) with s2.
+    rewrite !(sl_split a2 o2) by assumption. rewrite !last_lead_comps by assumption. rewrite andb_true_r.
+    unfold sl_checks. destruct (str_eqb (last FX []) (last TX [])); cbn [negb andb]; [|reflexivity].
+    unfold roots_ok. change (c_fl c) with fl. change (c_ssep c) with s2. change (c_dsep c) with s2.
+    change (dpiece c) with 0. cbn [forallb]. rewrite truthy_some by (apply (sl_nonempty a2 o2); assumption).
+    rewrite !(sl_lstrip a2 o2) by assumption.
+    pose proof (split_join_m a2 o2 FX HFX HgF2) as E1. pose proof (split_join_m a2 o2 TX HTX HgT2) as E2.
+    fold s2 in E1, E2. change (a2 :: o2) with s2. rewrite E1, E2. unfold root_name. cbn [nth_error]. rewrite !andb_true_r.
+    destruct (negb (f_full fl) || str_eqb (hd [] FX) (tname t)); cbn [andb negb];
+      destruct (str_eqb (hd [] TX) (tname t)); reflexivity.
+  Qed.
+
+  (* what the call does once the argument checks have passed (with_full_path) *)
+  Definition sl_pair : outc :=
+    match walk_names (tkids t) [0] (tl FX) with
+    | Raise e => ([t], Some e)
+    | Ret None => if f_skip fl then ([t], None) else ([t], Some NotFoundError)
+    | Ret (Some fr) =>
+        match walk_names (tkids t) [0] (tl TX) with
+        | Raise e => ([t], Some e)
+        | Ret (Some dr) => cs_core c [t] fr (TNode dr)
+        | Ret None => cs_core c [t] fr (TNew (tl (removelast TX)))
+        end
+    end.
+
+  Lemma sl_run : f_full fl = true ->
+    run i = if f_mc fl && f_ml fl then ([t], Some ValueError)
+            else if sl_checks then sl_pair else ([t], Some ValueError).
+  Proof.
+    intros Hfull. unfold run, run_from. replace (is_replace (mi_op i)) with false by (unfold i, op; destruct cp; reflexivity).
+    rewrite sl_cfg. replace (init_forest i) with [t] by (unfold i, op, init_forest; destruct cp; reflexivity).
+    change (mi_from i) with [rpath_str s1 lf FX]. change (mi_to i) with [Some (rpath_str s1 lt TX)].
+    unfold copy_or_shift_logic. rewrite (seps_ok_no_refusal false c _ _ eq_refl), sl_validate.
+    destruct (f_mc fl && f_ml fl); [reflexivity|]. destruct sl_checks eqn:Hck; [|reflexivity].
+    cbn [map run_pairs]. rewrite sl_norm_from, sl_norm_to.
+    assert (Hpair : cs_pair c [t] (rpath_str s2 lf FX) (Some (rpath_str s2 lt TX)) = sl_pair).
+    { unfold sl_checks in Hck. rewrite Hfull in Hck. cbn [negb orb] in Hck.
+      apply andb_true_iff in Hck as [Hck H3]. apply andb_true_iff in Hck as [_ H2].
+      unfold cs_pair, resolve_from. change (f_full (c_fl c)) with (f_full fl). rewrite Hfull.
+      change (c_ssep c) with s2. rewrite (sl_find_full_path a2 o2) by assumption. rewrite H2. cbn [negb].
+      unfold sl_pair. destruct (walk_names (tkids t) [0] (tl FX)) as [[fr|]|e]; [| |reflexivity].
+      - unfold resolve_target. rewrite truthy_some by (apply (sl_nonempty a2 o2); assumption).
+        change (dpiece c) with 0. change (c_dsep c) with s2.
+        rewrite (sl_find_full_path a2 o2) by assumption. rewrite H3. cbn [negb].
+        destruct (walk_names (tkids t) [0] (tl TX)) as [[dr|]|e] eqn:Ew; [reflexivity| |reflexivity].
+        assert (Hlen : 2 <= length TX).
+        { destruct TX as [|x0 [|x1 TX']]; [congruence|discriminate|cbn; lia]. }
+        pose proof (sl_add_path_comps a2 o2 t lt TX Hlen HgT2) as Ea. fold s2 in Ea. rewrite Ea, H3. cbn [negb]. reflexivity.
+      - change (f_skip (c_fl c)) with (f_skip fl). reflexivity. }
+    rewrite Hpair. destruct sl_pair as [f1 [e|]]; reflexivity.
+  Qed.
+
+  (* Spec.parse and Spec.spec_call on these strings *)
+  Lemma sl_parse lead L : L <> [] -> Forall (sgood s1) L -> Forall (sgood s2) L ->
+    parse [s1; s2; s2] s1 (rpath_str s1 lead L) = Some (PQ lead L).
+  Proof.
+    intros HL H1 H2. unfold parse.
+    destruct (Forall_hd_last _ L [] HL H1) as [Hh Hl].
+    destruct (join_split_hd s1 L HL) as [rest Hjh]. destruct (join_split_last s1 L HL) as [pre Hjl].
+    assert (Hs : startswith (rpath_str s1 lead L) s1 = lead).
+    { unfold rpath_str. destruct lead; [apply startswith_app|]. cbn [app].
+      rewrite Hjh. apply startswith_good_false; [discriminate|exact Hh]. }
+    rewrite Hs.
+    assert (Hs1 : (if lead then skipn (length s1) (rpath_str s1 lead L) else rpath_str s1 lead L) = join s1 L).
+    { unfold rpath_str. destruct lead; [apply skipn_app_exact|reflexivity]. }
+    rewrite Hs1.
+    assert (He : endswith (join s1 L) s1 = false) by (rewrite Hjl; apply endswith_good_false; [discriminate|exact Hl]).
+    rewrite He. pose proof (split_join_m a1 o1 L HL H1) as E. fold s1 in E. rewrite E.
+    replace (forallb _ L) with true; [reflexivity|]. symmetry. apply forallb_forall. intros w Hw.
+    rewrite Forall_forall in H1, H2. destruct (H1 w Hw) as [Hw1 Hw2]. destruct (H2 w Hw) as [_ Hw3].
+    pose proof (contains_sfree s1 ltac:(discriminate) _ Hw2) as Hc1.
+    pose proof (contains_sfree s2 ltac:(discriminate) _ Hw3) as Hc2.
+    destruct w; [congruence|]. cbn [is_empty negb andb forallb]. rewrite Hc1, Hc2. reflexivity.
+  Qed.
+
+  Lemma sl_spec : trees_ok i = true ->
+    spec_call i (mi_from i) (mi_to i)
+    = if f_mc fl && f_ml fl then (false, SDone (rows t) (rows t) (Some ValueError))
+      else if sl_checks then (true, fold_pairs i (rows t) (rows t) [(PQ lf FX, Some (PQ lt TX))])
+      else (false, SDone (rows t) (rows t) (Some ValueError)).
+  Proof.
+    intros Hok. unfold spec_call. rewrite Hok. cbn [negb].
+    replace (is_replace (mi_op i)) with false by (unfold i, op; destruct cp; reflexivity).
+    replace (is_tt (mi_op i)) with false by (unfold i, op; destruct cp; reflexivity).
+    change (mi_fl i) with fl. cbn [negb andb]. change (mi_src i) with t.
+    destruct (f_mc fl && f_ml fl); [reflexivity|].
+    change (mi_from i) with [rpath_str s1 lf FX]. change (mi_to i) with [Some (rpath_str s1 lt TX)].
+    cbn [length Nat.eqb negb existsb map]. rewrite truthy_some by (apply (sl_nonempty a1 o1); assumption).
+    rewrite orb_false_r, andb_false_r.
+    change (mi_sep i) with s1. change (mi_ssep i) with s2. change (mi_dsep i) with s2.
+    match goal with |- context [parse ?x1 ?x2 (rpath_str ?x3 lf FX)] =>
+      replace (parse x1 x2 (rpath_str x3 lf FX)) with (Some (PQ lf FX)) by (symmetry; exact (sl_parse lf FX HFX HgF1 HgF2)) end.
+    unfold parse_to. rewrite truthy_some by (apply (sl_nonempty a1 o1); assumption).
+    match goal with |- context [parse ?x1 ?x2 (rpath_str ?x3 lt TX)] =>
+      replace (parse x1 x2 (rpath_str x3 lt TX)) with (Some (PQ lt TX)) by (symmetry; exact (sl_parse lt TX HTX HgT1 HgT2)) end. cbn [all_some combine existsb fst snd q_comps]. rewrite !orb_false_r.
+    unfold sl_checks. destruct (str_eqb (last FX []) (last TX [])); cbn [negb andb]; [|reflexivity].
+    destruct (f_full fl); cbn [negb orb andb];
+      destruct (str_eqb (hd [] FX) (tname t)); destruct (str_eqb (hd [] TX) (tname t)); reflexivity.
+  Qed.
+End WholeCall.
+
+(* -- prop_C08 on the model's output, family by family ------------------------------------------------ *)
+
+Definition sl_in (cp : bool) fl (s1 s2 : str) t lf FX lt TX : minput :=
+  MI (if cp then OpCopy else OpShift) fl s1 t s2 (T None [] [] []) s2 [rpath_str s1 lf FX] [Some (rpath_str s1 lt TX)].
+
+Lemma filter_at_path_none (tb : table) P : has tb P = false -> filter (at_path P) tb = [].
+Proof.
+  unfold has. intros H. apply filter_none. intros r Hr. destruct (at_path P r) eqn:E; [|reflexivity].
+  assert (existsb (at_path P) tb = true) by (eapply existsb_true; eassumption). congruence.
+Qed.
+
+Lemma matches_same i (t2 : tree) rest e :
+  is_tt (mi_op i) = false ->
+  matches i (SDone (rows t2) (rows t2) e) (obs_of i (t2 :: rest, e)) = true.
+Proof.
+  intros Htt. unfold matches, obs_of. cbn [fst snd o_code o_src piece nth]. rewrite Nat.eqb_refl, Htt.
+  rewrite table_of_obs_flatten, table_eqb_refl. reflexivity.
+Qed.
+
+Section Families.
+  Variables (a1 : N) (o1 : str) (a2 : N) (o2 : str).
+  Local Notation s1 := (a1 :: o1).
+  Local Notation s2 := (a2 :: o2).
+  Variables (cp : bool) (fl : mflags) (t : tree) (lf lt : bool) (FX TX : list str).
+  Let i := sl_in cp fl s1 s2 t lf FX lt TX.
+  Let c := CFG cp false s1 s2 s2 fl.
+  Hypothesis HFX : FX <> [].
+  Hypothesis HTX : TX <> [].
+  Hypothesis HgF1 : Forall (sgood s1) FX.
+  Hypothesis HgF2 : Forall (sgood s2) FX.
+  Hypothesis HgT1 : Forall (sgood s1) TX.
+  Hypothesis HgT2 : Forall (sgood s2) TX.
+
+  Lemma fam_tt : is_tt (mi_op i) = false.
+  Proof. unfold i, sl_in. destruct cp; reflexivity. Qed.
+
+  (* refused by an argument check: both merge flags, different last names, a from-path (with_full_path) or a to-path
+     that does not start at the root *)
+  Theorem fam_refused :
+    f_mc fl && f_ml fl = true \/ sl_checks fl t FX TX = false ->
+    snd (run i) = Some ValueError /\ prop_C08 i (obs_of i (run i)) None = true.
+  Proof.
+    intros Href.
+    assert (Hrun : run i = ([t], Some ValueError)).
+    { assert (Hcfg : cfg_of i = c) by exact (sl_cfg a1 o1 a2 o2 cp fl t lf lt FX TX).
+      unfold run, run_from. replace (is_replace (mi_op i)) with false by (unfold i, sl_in; destruct cp; reflexivity).
+      rewrite Hcfg. replace (init_forest i) with [t] by (unfold i, sl_in, init_forest; destruct cp; reflexivity).
+      change (mi_from i) with [rpath_str s1 lf FX]. change (mi_to i) with [Some (rpath_str s1 lt TX)].
+      unfold copy_or_shift_logic.
+      rewrite (seps_ok_no_refusal false c _ _ eq_refl). unfold c. rewrite (sl_validate a1 o1 a2 o2 cp fl t lf lt FX TX) by assumption.
+      destruct (f_mc fl && f_ml fl); [reflexivity|]. destruct Href as [Href|Href]; [discriminate|]. rewrite Href. reflexivity. }
+    split; [rewrite Hrun; reflexivity|].
+    unfold prop_C08. destruct (trees_ok i) eqn:Hok.
+    - pose proof (sl_spec a1 o1 a2 o2 cp fl t lf lt FX TX HFX HTX HgF1 HgF2 HgT1 HgT2 Hok) as Hs.
+      change (spec_call i (mi_from i) (mi_to i) = (if f_mc fl && f_ml fl then (false, SDone (rows t) (rows t) (Some ValueError))
+              else if sl_checks fl t FX TX then (true, fold_pairs i (rows t) (rows t) [(PQ lf FX, Some (PQ lt TX))])
+              else (false, SDone (rows t) (rows t) (Some ValueError)))) in Hs.
+      rewrite Hs, Hrun.
+      destruct (f_mc fl && f_ml fl); [rewrite (matches_same i t [] _ fam_tt); reflexivity|].
+      destruct Href as [Href|Href]; [discriminate|]. rewrite Href. rewrite (matches_same i t [] _ fam_tt). reflexivity.
+    - unfold spec_call. rewrite Hok. reflexivity.
+  Qed.
+
+  Hypothesis Hfull : f_full fl = true.
+  Hypothesis Hmm : f_mc fl && f_ml fl = false.
+  Hypothesis Hck : sl_checks fl t FX TX = true.
+  Hypothesis Hwf : wf_t t.
+
+  Lemma fam_run : run i = sl_pair a1 o1 a2 o2 cp fl t FX TX.
+  Proof.
+    pose proof (sl_run a1 o1 a2 o2 cp fl t lf lt FX TX HFX HTX HgF1 HgF2 HgT1 HgT2 Hfull) as H.
+    rewrite Hmm, Hck in H. exact H.
+  Qed.
+
+  Lemma fam_spec : trees_ok i = true ->
+    spec_call i (mi_from i) (mi_to i) = (true, fold_pairs i (rows t) (rows t) [(PQ lf FX, Some (PQ lt TX))]).
+  Proof.
+    intros Hok. pose proof (sl_spec a1 o1 a2 o2 cp fl t lf lt FX TX HFX HTX HgF1 HgF2 HgT1 HgT2 Hok) as H.
+    rewrite Hmm, Hck in H. exact H.
+  Qed.
+
+  Lemma fam_hd : hd [] FX = tname t /\ hd [] TX = tname t.
+  Proof.
+    unfold sl_checks in Hck. rewrite Hfull in Hck. cbn [negb orb] in Hck.
+    apply andb_true_iff in Hck as [H H3]. apply andb_true_iff in H as [_ H2].
+    apply str_eqb_eq in H2, H3. split; assumption.
+  Qed.
+
+  (* a from-path that addresses no node: NotFoundError, or nothing at all with skippable *)
+  Theorem fam_missing_from :
+    has (rows t) FX = false ->
+    fst (run i) = [t] /\ snd (run i) = (if f_skip fl then None else Some NotFoundError)
+    /\ prop_C08 i (obs_of i (run i)) None = true.
+  Proof.
+    intros Habs. destruct fam_hd as [H2 _].
+    assert (Hne : tl FX <> []).
+    { intros E. destruct FX as [|x0 [|x1 F']]; [congruence| |discriminate]. cbn in H2. subst x0.
+      rewrite has_root in Habs. discriminate. }
+    assert (Hw : walk_names (tkids t) [0] (tl FX) = Ret None).
+    { apply walk_names_absent; [exact Hwf|exact Hne|]. destruct FX as [|x0 F']; [congruence|]. cbn in H2. subst x0. exact Habs. }
+    assert (Hrun : run i = ([t], if f_skip fl then None else Some NotFoundError)).
+    { rewrite fam_run. unfold sl_pair. rewrite Hw. destruct (f_skip fl); reflexivity. }
+    rewrite Hrun. split; [reflexivity|]. split; [reflexivity|].
+    unfold prop_C08. destruct (trees_ok i) eqn:Hok; [|unfold spec_call; rewrite Hok; reflexivity].
+    rewrite (fam_spec Hok). cbn [fold_pairs]. unfold resolve_step.
+    replace (f_full (mi_fl i)) with true by (unfold i, sl_in; cbn; symmetry; exact Hfull).
+    unfold candidates. cbn [q_comps]. rewrite (filter_at_path_none _ _ Habs).
+    replace (f_skip (mi_fl i)) with (f_skip fl) by (unfold i, sl_in; reflexivity).
+    destruct (f_skip fl); cbn [fold_pairs]; rewrite (matches_same i t [] _ fam_tt); reflexivity.
+  Qed.
+
+  (* the generic accepted / refused-at-the-pair case: the from-path addresses the node at reference p *)
+  Variables (p : ref) (x : tree).
+  Hypothesis Hp : p <> [].
+  Hypothesis Hx : tget t p = Some x.
+  Hypothesis HPX : tpath t p = Some FX.
+
+  Lemma fam_walk_from : walk_names (tkids t) [0] (tl FX) = Ret (Some (0 :: p)).
+  Proof.
+    destruct (tpath_ext _ _ _ HPX) as [restp [HPe _]]. rewrite HPe. cbn [tl]. change (0 :: p) with ([0] ++ p).
+    apply (walk_names_complete p (tkids t) [0] [tname t] restp (wf_t_kids _ Hwf)).
+    unfold tpath in HPX. rewrite HPX, HPe. reflexivity.
+  Qed.
+
+  Lemma fam_candidates : candidates true s2 (rows t) (PQ lf FX) = [(FX, ttag x, tattrs x)].
+  Proof. unfold candidates. cbn [q_comps]. apply (t_row_at t p x FX Hwf Hp Hx HPX). Qed.
+
+  Lemma fam_prop_of_edit (tg : target) (out : outc) :
+    walk_names (tkids t) [0] (tl TX) = Ret (match tg with TNode dr => Some dr | _ => None end) ->
+    (match tg with TNode _ => True | TNew comps => comps = tl (removelast TX) | TDel => False end) ->
+    cs_core c [t] (0 :: p) tg = out ->
+    (match out with
+     | (t2 :: _, None) => edit_cs cp true fl (rows t) (rows t) FX (Some TX) = PNext (rows t2) (rows t2)
+     | (t2 :: _, Some e) => t2 = t /\ edit_cs cp true fl (rows t) (rows t) FX (Some TX) = PErr e
+     | _ => False
+     end) ->
+    run i = out /\ prop_C08 i (obs_of i (run i)) None = true.
+  Proof.
+    intros Hwt Htg Hcore Hedit.
+    assert (Hrun : run i = out).
+    { rewrite fam_run. unfold sl_pair. rewrite fam_walk_from, Hwt. fold c.
+      destruct tg as [|dr|comps]; [destruct Htg|exact Hcore|rewrite <- Htg; exact Hcore]. }
+    split; [exact Hrun|]. rewrite Hrun.
+    unfold prop_C08. destruct (trees_ok i) eqn:Hok; [|unfold spec_call; rewrite Hok; reflexivity].
+    rewrite (fam_spec Hok). cbn [fold_pairs]. unfold resolve_step.
+    replace (f_full (mi_fl i)) with true by (unfold i, sl_in; cbn; symmetry; exact Hfull).
+    replace (mi_ssep i) with s2 by (unfold i, sl_in; reflexivity).
+    rewrite fam_candidates. cbn [rpath fst option_map q_comps].
+    replace (is_replace (mi_op i)) with false by (unfold i, sl_in; destruct cp; reflexivity).
+    replace (is_copy (mi_op i)) with cp by (unfold i, sl_in; destruct cp; reflexivity).
+    rewrite fam_tt. cbn [negb]. replace (mi_fl i) with fl by (unfold i, sl_in; reflexivity).
+    destruct out as [[|t2 rest] [e|]]; try (destruct Hedit; fail).
+    - destruct Hedit as [-> He]. rewrite He. rewrite (matches_same i t rest _ fam_tt). reflexivity.
+    - rewrite Hedit. cbn [fold_pairs]. rewrite (matches_same i t2 rest _ fam_tt). reflexivity.
+  Qed.
+End Families.
+
+(* -- instances ------------------------------------------------------------------------------------------ *)
+
+Lemma sl_checks_ok fl t FX TX : hd [] FX = tname t -> hd [] TX = tname t -> last FX [] = last TX [] ->
+  sl_checks fl t FX TX = true.
+Proof.
+  intros H1 H2 H3. unfold sl_checks. apply andb_true_iff; split; [apply andb_true_iff; split|].
+  - apply str_eqb_eq. exact H3.
+  - apply orb_true_iff. right. apply str_eqb_eq. exact H1.
+  - apply str_eqb_eq. exact H2.
+Qed.
+
+(* from == to without a merge flag: TreeError, nothing changes *)
+Theorem C08_prop_same_node_stmt a1 o1 a2 o2 cp fl t lf lt PX p x :
+  Forall (sgood (a1 :: o1)) PX -> Forall (sgood (a2 :: o2)) PX ->
+  f_full fl = true -> f_mc fl = false -> f_ml fl = false -> wf_t t ->
+  p <> [] -> tget t p = Some x -> tpath t p = Some PX ->
+  let i := sl_in cp fl (a1 :: o1) (a2 :: o2) t lf PX lt PX in
+  run i = ([t], Some TreeError) /\ prop_C08 i (obs_of i (run i)) None = true.
+Proof.
+  intros Hg1 Hg2 Hfull Hmc Hml Hwf Hp Hx HPX i.
+  destruct (tpath_ext _ _ _ HPX) as [restp [HPe Hl]].
+  assert (HneX : PX <> []) by (rewrite HPe; discriminate).
+  assert (Hh : hd [] PX = tname t) by (rewrite HPe; reflexivity).
+  assert (Hck : sl_checks fl t PX PX = true) by (apply sl_checks_ok; auto).
+  assert (Hmm : f_mc fl && f_ml fl = false) by (rewrite Hmc; reflexivity).
+  assert (Hk2 : Nat.eqb (length PX) 1 = false).
+  { apply Nat.eqb_neq. rewrite HPe. cbn [length]. destruct p; [congruence|cbn in Hl; lia]. }
+  apply (fam_prop_of_edit a1 o1 a2 o2 cp fl t lf lt PX PX HneX HneX Hg1 Hg2 Hg1 Hg2 Hfull Hmm Hck Hwf p x Hp Hx HPX
+           (TNode (0 :: p)) ([t], Some TreeError)).
+  - eapply fam_walk_from; eassumption.
+  - exact I.
+  - unfold cs_core. rewrite ref_eqb_refl. cbn [c_fl]. rewrite Hmc, Hml. reflexivity.
+  - split; [reflexivity|]. unfold edit_cs. rewrite Hk2, andb_false_r. rewrite str_eqb_refl, path_eqb_refl. cbn [negb andb].
+    rewrite Hmc, Hml. reflexivity.
+Qed.
+
+(* every row of the decision table proved for a destination that is absent, at the string level:
+   shift / copy, with or without delete_children, merge_children, merge_leaves (guards as in the core theorems) *)
+Theorem C08_prop_absent_generic_stmt a1 o1 a2 o2 cp fl t lf lt PX p x comps t2 rest :
+  let Q := tname t :: comps in
+  let TX := Q ++ [tname x] in
+  Forall (sgood (a1 :: o1)) PX -> Forall (sgood (a2 :: o2)) PX ->
+  Forall (sgood (a1 :: o1)) Q -> Forall (sgood (a2 :: o2)) Q ->
+  f_full fl = true -> f_mc fl && f_ml fl = false -> wf_t t ->
+  p <> [] -> tget t p = Some x -> tpath t p = Some PX ->
+  has (rows t) TX = false ->
+  cs_core (cfg_same cp (a1 :: o1) (a2 :: o2) fl) [t] (0 :: p) (TNew comps) = (t2 :: rest, None) ->
+  edit_cs cp true fl (rows t) (rows t) PX (Some TX) = PNext (rows t2) (rows t2) ->
+  let i := sl_in cp fl (a1 :: o1) (a2 :: o2) t lf PX lt TX in
+  run i = (t2 :: rest, None) /\ prop_C08 i (obs_of i (run i)) None = true.
+Proof.
+  intros Q TX Hg1 Hg2 Hq1 Hq2 Hfull Hmm Hwf Hp Hx HPX Habs Hcore Hedit i.
+  destruct (t_sub_rows t p x PX Hwf Hp Hx HPX) as [P0 [HP0 _]].
+  destruct (tpath_ext _ _ _ HPX) as [restp [HPe Hl]].
+  assert (HneX : PX <> []) by (rewrite HPe; discriminate).
+  assert (HneT : TX <> []) by (unfold TX, Q; discriminate).
+  assert (Hsx1 : sgood (a1 :: o1) (tname x)) by (rewrite HP0 in Hg1; apply Forall_app in Hg1 as [_ H]; inversion H; assumption).
+  assert (Hsx2 : sgood (a2 :: o2) (tname x)) by (rewrite HP0 in Hg2; apply Forall_app in Hg2 as [_ H]; inversion H; assumption).
+  assert (Ht1 : Forall (sgood (a1 :: o1)) TX) by (apply Forall_app; split; [exact Hq1|constructor; [exact Hsx1|constructor]]).
+  assert (Ht2 : Forall (sgood (a2 :: o2)) TX) by (apply Forall_app; split; [exact Hq2|constructor; [exact Hsx2|constructor]]).
+  assert (Hck : sl_checks fl t PX TX = true).
+  { apply sl_checks_ok; [rewrite HPe; reflexivity|reflexivity|]. unfold TX. rewrite last_last, HP0, last_last. reflexivity. }
+  apply (fam_prop_of_edit a1 o1 a2 o2 cp fl t lf lt PX TX HneX HneT Hg1 Hg2 Ht1 Ht2 Hfull Hmm Hck Hwf p x Hp Hx HPX
+           (TNew comps) (t2 :: rest, None)).
+  - apply (walk_names_absent t (comps ++ [tname x]) Hwf); [destruct comps; discriminate|exact Habs].
+  - unfold TX. rewrite removelast_last. reflexivity.
+  - exact Hcore.
+  - exact Hedit.
+Qed.
+
+(* overriding an existing destination, at the string level *)
+Theorem C08_prop_override_stmt a1 o1 a2 o2 fl t lf lt p d x D PX PD :
+  Forall (sgood (a1 :: o1)) PX -> Forall (sgood (a2 :: o2)) PX ->
+  Forall (sgood (a1 :: o1)) PD -> Forall (sgood (a2 :: o2)) PD ->
+  f_full fl = true -> f_over fl = true -> f_mc fl = false -> f_ml fl = false -> f_dc fl = false -> wf_t t ->
+  p <> [] -> d <> [] -> tget t p = Some x -> tget t d = Some D ->
+  tpath t p = Some PX -> tpath t d = Some PD ->
+  pfx PX PD = false -> pfx PD PX = false -> tname D = tname x ->
+  let i := sl_in false fl (a1 :: o1) (a2 :: o2) t lf PX lt PD in
+  snd (run i) = None /\ prop_C08 i (obs_of i (run i)) None = true.
+Proof.
+  intros Hg1 Hg2 Hd1 Hd2 Hfull Hov Hmc Hml Hdc Hwf Hp Hd Hx HD HPX HPD Hn1 Hn2 Hname i.
+  destruct (C08_override_stmt (a1 :: o1) (a2 :: o2) fl t p d x D PX PD Hov Hmc Hml Hdc Hwf Hp Hd Hx HD HPX HPD Hn1 Hn2 Hname)
+    as [t2 [Hcore [_ [Hedit _]]]].
+  destruct (tpath_ext _ _ _ HPX) as [restp [HPe _]]. destruct (tpath_ext _ _ _ HPD) as [restd [HDe _]].
+  destruct (t_sub_rows t p x PX Hwf Hp Hx HPX) as [P0 [HP0 _]].
+  destruct (t_sub_rows t d D PD Hwf Hd HD HPD) as [P1 [HP1 _]].
+  assert (HneX : PX <> []) by (rewrite HPe; discriminate).
+  assert (HneD : PD <> []) by (rewrite HDe; discriminate).
+  assert (Hck : sl_checks fl t PX PD = true).
+  { apply sl_checks_ok; [rewrite HPe; reflexivity|rewrite HDe; reflexivity|]. rewrite HP0, HP1, !last_last. symmetry. exact Hname. }
+  assert (Hmm : f_mc fl && f_ml fl = false) by (rewrite Hmc; reflexivity).
+  destruct (fam_prop_of_edit a1 o1 a2 o2 false fl t lf lt PX PD HneX HneD Hg1 Hg2 Hd1 Hd2 Hfull Hmm Hck Hwf p x Hp Hx HPX
+           (TNode (0 :: d)) ([t2; D], None)) as [Hrun Hprop].
+  - destruct (tpath_ext _ _ _ HPD) as [rd [E _]]. rewrite E. cbn [tl]. change (0 :: d) with ([0] ++ d).
+    apply (walk_names_complete d (tkids t) [0] [tname t] rd (wf_t_kids _ Hwf)). unfold tpath in HPD. rewrite HPD, E. reflexivity.
+  - exact I.
+  - exact Hcore.
+  - exact Hedit.
+  - split; [|exact Hprop]. fold i in Hrun. rewrite Hrun. reflexivity.
+Qed.
+
+(* ============================================================================================== *)
+(* Part 24.  C08_replace_position_unrelated = Spec.edit_rp.                                           *)
+
+Lemma del_nth_upd_nth_comm {A} (h : A -> A) : forall (l : list A) i j, i <> j ->
+  del_nth i (upd_nth j h l) = upd_nth (adj_idx i j) h (del_nth i l).
+Proof.
+  induction l as [|y l IH]; intros i j Hij; [reflexivity|].
+  destruct i as [|i], j as [|j]; try congruence.
+  - reflexivity.
+  - reflexivity.
+  - assert (Hij' : i <> j) by congruence. specialize (IH i j Hij').
+    change (del_nth (S i) (upd_nth (S j) h (y :: l))) with (y :: del_nth i (upd_nth j h l)).
+    change (del_nth (S i) (y :: l)) with (y :: del_nth i l). rewrite IH. unfold adj_idx.
+    change (Nat.ltb (S i) (S j)) with (Nat.ltb i j). destruct (Nat.ltb i j) eqn:E.
+    + apply Nat.ltb_lt in E. destruct j as [|j']; [lia|]. reflexivity.
+    + reflexivity.
+Qed.
+
+Lemma fsetk_fremove_comm x : forall q (f : forest) ks s,
+  is_prefix x q = false -> is_prefix q x = false -> fget x f = Some s ->
+  fsetk (adj' x q) ks (fremove x f) = fremove x (fsetk q ks f).
+Proof.
+  induction x as [|i x IH]; intros q f ks s H1 H2 Hg; [discriminate|].
+  destruct q as [|j q]; [discriminate|]. rewrite is_prefix_cons in H1, H2.
+  cbn [fget] in Hg. destruct (nth_error f i) as [t|] eqn:Et; [|discriminate].
+  destruct x as [|k x].
+  - cbn [is_prefix] in H1. rewrite andb_true_r in H1. unfold adj'. cbn [adj]. rewrite Nat.eqb_sym, H1.
+    cbn [fremove fsetk]. apply Nat.eqb_neq in H1. rewrite del_nth_upd_nth_comm by exact H1. reflexivity.
+  - destruct (Nat.eqb i j) eqn:E.
+    + apply Nat.eqb_eq in E. subst j. cbn [andb] in H1. rewrite Nat.eqb_refl in H2. cbn [andb] in H2.
+      unfold adj'. rewrite adj_cons_same by discriminate.
+      destruct (adj (k :: x) q) as [r|] eqn:Ea; [|apply adj_none in Ea; [congruence|discriminate]].
+      cbn [option_map]. rewrite !fremove_cons_ne by discriminate. cbn [fsetk]. rewrite !upd_nth_upd_nth.
+      eapply upd_nth_ext_at; [exact Et|]. rewrite !set_kids_set_kids, !tkids_set_kids. f_equal.
+      specialize (IH q (tkids t) ks s H1 H2 Hg). unfold adj' in IH. rewrite Ea in IH. exact IH.
+    + unfold adj'. cbn [adj]. rewrite Nat.eqb_sym, E. rewrite !fremove_cons_ne by discriminate. cbn [fsetk].
+      apply upd_nth_comm. apply Nat.eqb_neq in E. congruence.
+Qed.
+
+Lemma wf_fsetk p : forall (f : forest) ks, p <> [] -> wf_f f -> wf_f ks -> wf_f (fsetk p ks f).
+Proof.
+  induction p as [|i p IH]; intros f ks Hp [Hn Hf] Hks; [congruence|]. cbn [fsetk]. split.
+  - rewrite map_tname_upd_nth; [exact Hn|intros; apply tname_set_kids].
+  - apply Forall_upd_nth; [|exact Hf]. intros t Ht. apply wf_t_set_kids.
+    destruct p as [|j p]; [exact Hks|]. apply IH; [discriminate|apply wf_t_kids; exact Ht|exact Hks].
+Qed.
+
+Lemma pfx_app_cases P Q r : pfx P (Q ++ r) = true -> pfx P Q = true \/ pfx Q P = true.
+Proof.
+  revert Q; induction P as [|a P IH]; intros Q H; [left; reflexivity|].
+  destruct Q as [|b Q]; [right; reflexivity|]. cbn in H |- *. apply andb_true_iff in H as [H1 H2].
+  rewrite H1. apply str_eqb_eq in H1. subst. rewrite str_eqb_refl. cbn. apply IH. exact H2.
+Qed.
+
+Theorem C08_replace_unrelated_spec_stmt c fl t par p L D R x PQ PX :
+  plain_replace c -> f_dc fl = false -> wf_t t -> tpath t par = Some PQ -> par <> [] -> p <> [] ->
+  fkids par (tkids t) = Some (L ++ D :: R) -> tget t p = Some x -> tpath t p = Some PX ->
+  pfx PQ PX = false -> pfx PX PQ = false ->
+  (forall k, In k (L ++ R) -> tname k <> tname x) ->
+  let d := par ++ [length L] in
+  let PD := PQ ++ [tname D] in
+  let t2 := t_setk (adj' p par) (L ++ x :: R) (t_remove p (t_remove d t)) in
+  (exists rest, rp_core c [t] (0 :: p) (0 :: d) = (t2 :: rest, None))
+  /\ rows t2 = minus (before_block (rows t) PD) PX ++ rows_from PQ x ++ minus (after_block (rows t) PD) PX
+  /\ edit_rp false true fl (rows t) (rows t) PX (Some PD) = PNext (rows t2) (rows t2).
+Proof.
+  intros Hpr Hdc Hwf HPQ Hpar Hp Hks Hx HPX Hn1 Hn2 Hfresh d PD t2.
+  assert (Hpp1 : is_prefix par p = false) by (eapply not_pfx_not_prefix; eassumption).
+  assert (Hpp2 : is_prefix p par = false) by (eapply not_pfx_not_prefix; eassumption).
+  destruct (C08_replace_unrelated_stmt c t par p L D R x PQ PX Hpr Hwf HPQ Hpar Hp Hks Hx HPX Hpp1 Hpp2 Hfresh)
+    as [Hcore _].
+  assert (Hnd : NoDup (map tname (L ++ D :: R))) by (apply (wf_fkids par (tkids t) _ (wf_t_kids _ Hwf) Hks)).
+  (* the result is also: replace D by x in place, then remove the original F *)
+  set (tx := t_setk par (L ++ x :: R) t).
+  assert (Hta : t_remove d t = t_setk par (L ++ R) t).
+  { rewrite <- (t_setk_id par t _ Hks) at 1. unfold t_remove, t_setk, d.
+    rewrite set_kids_set_kids, tkids_set_kids, fremove_fsetk_child, del_nth_mid. reflexivity. }
+  assert (Ht2 : t2 = t_remove p tx).
+  { unfold t2, tx. rewrite Hta. unfold t_remove, t_setk. rewrite !set_kids_set_kids, !tkids_set_kids. f_equal.
+    assert (Hg : fget p (fsetk par (L ++ R) (tkids t)) = Some x).
+    { rewrite fget_fsetk_other by assumption. exact Hx. }
+    transitivity (fremove p (fsetk par (L ++ x :: R) (fsetk par (L ++ R) (tkids t)))).
+    - apply (fsetk_fremove_comm p par _ (L ++ x :: R) x Hpp2 Hpp1 Hg).
+    - rewrite fsetk_fsetk. reflexivity. }
+  assert (Hwfx : wf_t x) by (apply (wf_tget t p x Hwf Hx)).
+  assert (Hwfks : wf_f (L ++ x :: R)).
+  { pose proof (wf_fkids par (tkids t) _ (wf_t_kids _ Hwf) Hks) as [Hn Hf]. split.
+    - rewrite map_app in *. cbn [map] in *. apply NoDup_remove_1 in Hn as Hn1'. 
+      assert (Hnotin : ~ In (tname x) (map tname L ++ map tname R)).
+      { rewrite <- map_app. intros Hin. apply in_map_iff in Hin as [k [E Hk]]. apply (Hfresh k Hk). exact E. }
+      clear -Hn1' Hnotin. induction L as [|l0 L IHL]; cbn [map app] in *.
+      + constructor; assumption.
+      + inversion Hn1'; subst. constructor.
+        * intros Hin. apply in_app_or in Hin as [Hin|[E|Hin]]; [apply H1; apply in_or_app; left; exact Hin| |apply H1; apply in_or_app; right; exact Hin].
+          apply Hnotin. left. symmetry. exact E.
+        * apply IHL; [assumption|]. intros Hin. apply Hnotin. right. exact Hin.
+    - rewrite Forall_app in *. destruct Hf as [HfL HfR]. inversion HfR; subst. split; [exact HfL|constructor; assumption]. }
+  assert (Hwftx : wf_t tx) by (apply wf_t_set_kids, wf_fsetk; [exact Hpar|apply wf_t_kids; exact Hwf|exact Hwfks]).
+  assert (HPXtx : tpath tx p = Some PX).
+  { unfold tpath, tx, t_setk. rewrite tname_set_kids, tkids_set_kids, fpath_fsetk by (left; exact Hpp1). exact HPX. }
+  destruct (rows_setk_ctx t par PQ Hwf HPQ) as [A [B [H1 H2]]].
+  destruct (blocks_around_child A B PQ L D R H2 Hnd) as [Hb Ha]. cbn zeta in Hb, Ha.
+  rewrite <- (H1 (L ++ D :: R)), (t_setk_id par t _ Hks) in Hb, Ha. fold PD in Hb, Ha.
+  assert (Hnu : forall (ks : list tree) r, In r (frows PQ ks) -> under PX r = false).
+  { intros ks r Hr. apply frows_under in Hr as [u [rs [_ Hrs]]]. unfold under. rewrite Hrs.
+    destruct (pfx PX (PQ ++ tname u :: rs)) eqn:E; [|reflexivity].
+    apply pfx_app_cases in E as [E|E]; congruence. }
+  assert (Hrows : rows t2 = minus (before_block (rows t) PD) PX ++ rows_from PQ x ++ minus (after_block (rows t) PD) PX).
+  { rewrite Ht2, (rows_t_remove tx p PX Hwftx Hp HPXtx). unfold tx. rewrite H1, frows_app, frows_cons.
+    rewrite Hb, Ha. rewrite !minus_app.
+    rewrite (minus_none (frows PQ L)) by (apply Hnu). rewrite (minus_none (frows PQ R)) by (apply Hnu).
+    rewrite (minus_none (rows_from PQ x)).
+    - rewrite <- !app_assoc. reflexivity.
+    - intros r Hr. apply (Hnu [x] r). rewrite frows_cons. apply in_or_app. left. exact Hr. }
+  split; [exact Hcore|]. split; [exact Hrows|]. rewrite Hrows.
+  assert (Hi : nth_error (L ++ D :: R) (length L) = Some D) by apply nth_error_mid.
+  assert (HPD : tpath t d = Some PD) by (eapply fpath_snoc; eassumption).
+  assert (Hdne : d <> []) by (unfold d; destruct par; discriminate).
+  destruct (t_sub_rows t p x PX Hwf Hp Hx HPX) as [P0 [HP0 Hsub]].
+  assert (Hk : length PX = S (length P0)) by (rewrite HP0, app_length; cbn; lia).
+  destruct (tpath_ext _ _ _ HPQ) as [restq [HPQe _]]. destruct (tpath_ext _ _ _ HPX) as [restp [HPe Hl]].
+  assert (HrlD : removelast PD = PQ) by (unfold PD; apply removelast_last).
+  assert (HlastX : last PX [] = tname x) by (rewrite HP0; apply last_last).
+  assert (E1 : path_eqb PD PX = false).
+  { destruct (path_eqb PD PX) eqn:E; [|reflexivity]. apply path_eqb_eq in E. unfold PD in E. rewrite <- E, pfx_app in Hn1. discriminate. }
+  assert (E3 : pfx PX PD = false).
+  { apply pfx_snoc_false; [exact Hn2|]. intros E. unfold PD in E1. rewrite <- E, path_eqb_refl in E1. discriminate. }
+  unfold edit_rp. rewrite (t_has_row t d PD Hdne HPD). cbn [negb andb]. rewrite E1.
+  replace (Nat.eqb (length PD) 1) with false by (symmetry; apply Nat.eqb_neq; unfold PD; rewrite app_length, HPQe; cbn; lia).
+  rewrite E3. cbn [orb andb negb].
+  replace (Nat.eqb (length PX) 1) with false by (symmetry; apply Nat.eqb_neq; rewrite HPe; cbn [length]; destruct p; [congruence|cbn in Hl; lia]).
+  rewrite !HrlD, !HlastX.
+  replace (has (rows t) (PQ ++ [tname x]) && negb (path_eqb (PQ ++ [tname x]) PD) && negb (path_eqb (PQ ++ [tname x]) PX)) with false.
+  2: { symmetry. destruct (str_eqb (tname D) (tname x)) eqn:E.
+       - apply str_eqb_eq in E. unfold PD. rewrite E, path_eqb_refl. cbn [negb]. rewrite andb_false_r. reflexivity.
+       - rewrite (t_has_child t par PQ _ (tname x) Hwf HPQ Hks), existsb_names_app. cbn [existsb]. rewrite E.
+         rewrite existsb_name_false by (intros k Hk0; apply Hfresh; apply in_or_app; left; exact Hk0).
+         rewrite existsb_name_false by (intros k Hk0; apply Hfresh; apply in_or_app; right; exact Hk0).
+         reflexivity. }
+  replace (path_eqb (removelast PX) PQ) with false.
+  2: { symmetry. destruct (path_eqb (removelast PX) PQ) eqn:E; [|reflexivity]. apply path_eqb_eq in E.
+       rewrite <- E, removelast_pfx in Hn1. discriminate. }
+  cbn [andb]. rewrite Hdc. unfold reroot. cbn [fst snd]. fold (sub_rows (rows t) PX). rewrite Hsub, Hk.
+  cbn [Nat.sub]. rewrite Nat.sub_0_r. rewrite (reroot_rows_from x P0 PQ false). reflexivity.
+Qed.
+
+(* the whole-call theorem in general: `sep` and tree.sep of any positive lengths, possibly different, optional
+   leading separator on either path; plain shift (cp = false) or plain copy (cp = true), with or without
+   delete_children *)
+Theorem C08_whole_call_general_stmt a1 o1 a2 o2 (cp : bool) fl t lf lt PX p x comps :
+  let Q := tname t :: comps in
+  let TX := Q ++ [tname x] in
+  Forall (sgood (a1 :: o1)) PX -> Forall (sgood (a2 :: o2)) PX ->
+  Forall (sgood (a1 :: o1)) Q -> Forall (sgood (a2 :: o2)) Q ->
+  f_full fl = true -> f_mc fl = false -> f_ml fl = false -> wf_t t ->
+  p <> [] -> tget t p = Some x -> tpath t p = Some PX ->
+  pfx PX Q = false -> has (rows t) TX = false ->
+  let i := sl_in cp fl (a1 :: o1) (a2 :: o2) t lf PX lt TX in
+  exists t2 rest, run i = (t2 :: rest, None)
+    /\ edit_cs cp true fl (rows t) (rows t) PX (Some TX) = PNext (rows t2) (rows t2)
+    /\ prop_C08 i (obs_of i (run i)) None = true.
+Proof.
+  intros Q TX Hg1 Hg2 Hq1 Hq2 Hfull Hmc Hml Hwf Hp Hx HPX Hnotin Habs i.
+  assert (Hcomps : forall cc, In cc comps -> cc <> []).
+  { intros cc Hcc. inversion Hq1 as [|? ? _ Hf']; subst. rewrite Forall_forall in Hf'. apply (Hf' cc Hcc). }
+  assert (Hmm : f_mc fl && f_ml fl = false) by (rewrite Hmc; reflexivity).
+  assert (Hcore : exists t2 rest, cs_core (cfg_same cp (a1 :: o1) (a2 :: o2) fl) [t] (0 :: p) (TNew comps) = (t2 :: rest, None)
+                    /\ edit_cs cp true fl (rows t) (rows t) PX (Some TX) = PNext (rows t2) (rows t2)).
+  { destruct cp; destruct (f_dc fl) eqn:Hdc.
+    - destruct (C08_delete_children_copy_stmt (a1 :: o1) (a2 :: o2) fl t p x comps PX Hmc Hml Hdc Hwf Hp Hx HPX Hcomps Hnotin Habs)
+        as [t2 [rest [H1 [_ [H2 _]]]]]. exists t2, rest. split; assumption.
+    - destruct (C08_copy_keeps_source_stmt (a1 :: o1) (a2 :: o2) fl t p x comps PX Hmc Hml Hdc Hwf Hp Hx HPX Hcomps Hnotin Habs)
+        as [t2 [rest [H1 [_ [H2 _]]]]]. exists t2, rest. split; assumption.
+    - destruct (C08_delete_children_stmt (a1 :: o1) (a2 :: o2) fl t p x comps PX Hmc Hml Hdc Hwf Hp Hx HPX Hcomps Hnotin Habs)
+        as [t2 [rest [H1 [_ [H2 _]]]]]. exists t2, rest. split; assumption.
+    - destruct (C08_shift_paths_stmt (a1 :: o1) (a2 :: o2) fl t p x comps PX Hmc Hml Hdc Hwf Hp Hx HPX Hcomps Hnotin Habs)
+        as [t2 [H1 [_ [H2 _]]]]. exists t2, []. split; assumption. }
+  destruct Hcore as [t2 [rest [Hc He]]].
+  destruct (C08_prop_absent_generic_stmt a1 o1 a2 o2 cp fl t lf lt PX p x comps t2 rest Hg1 Hg2 Hq1 Hq2 Hfull Hmm Hwf Hp Hx HPX
+              Habs Hc He) as [Hrun Hprop].
+  exists t2, rest. split; [exact Hrun|]. split; [exact He|exact Hprop].
+Qed.
